@@ -488,6 +488,44 @@ pub fn run(p: &Params) -> Run {
             }
         }
     }
+    boundary_cases(&mut run, &env, p.tier_thorough);
     run.notes.push("expression level: type-directed generator (≈ 80% well-typed, 20% with ill-typed sub-terms) + operator × type × type table".to_owned());
     run
+}
+
+/// exhaustive boundary tables: INT x INT arithmetic (overflow, MIN / -1, zero divisors) and INT x REAL comparisons
+/// (values around 2^53 and 2^63 where rounding the INT would change the answer)
+pub fn boundary_cases(run: &mut Run, env: &[(String, Value)], thorough: bool) {
+    for x in INT_EDGES {
+        for y in INT_EDGES {
+            for op in &[ArithmeticOperator::Add, ArithmeticOperator::Subtract, ArithmeticOperator::Multiply, ArithmeticOperator::Divide] {
+                let e = ExpressionTree::Arithmetic { operator: op.clone(), left: bx(lit(Value::Int(*x))), right: bx(lit(Value::Int(*y))) };
+                check_expr(run, env, &e, "edge:");
+            }
+        }
+    }
+    let ops: Vec<CompareOperator> = if thorough {
+        vec![CompareOperator::Equal, CompareOperator::NotEqual, CompareOperator::GreaterThan, CompareOperator::GreaterThanOrEqual, CompareOperator::LessThan, CompareOperator::LessThanOrEqual]
+    } else {
+        vec![CompareOperator::Equal, CompareOperator::LessThan, CompareOperator::GreaterThanOrEqual]
+    };
+    for x in INT_EDGES {
+        let mut floats: Vec<u64> = F64_EDGE_BITS.to_vec();
+        let near = *x as f64;
+        floats.push(near.to_bits());
+        floats.push(near.to_bits().wrapping_add(1));
+        floats.push(near.to_bits().wrapping_sub(1));
+        for fb in floats {
+            for op in &ops {
+                let f = lit(Value::Float(Float(f64::from_bits(fb))));
+                let i = lit(Value::Int(*x));
+                let e = ExpressionTree::Compare { operator: op.clone(), left: bx(i.clone()), right: bx(f.clone()) };
+                check_expr(run, env, &e, "edge:");
+                let e = ExpressionTree::Compare { operator: op.clone(), left: bx(f.clone()), right: bx(i.clone()) };
+                check_expr(run, env, &e, "edge:");
+            }
+            let e = ExpressionTree::In { is_not: false, operand: bx(lit(Value::Int(*x))), values: vec![lit(Value::Float(Float(f64::from_bits(fb))))] };
+            check_expr(run, env, &e, "edge:");
+        }
+    }
 }
